@@ -88,6 +88,14 @@ CLAIMS = {
             "windows share one store (confirmed known finding; the external-bucket sibling is the conforming instance). The "
             "synchronisation policies' emission schedule is not decided.",
             "MIR closure-capture provenance, who-may-call over trait methods, loop placement of store creation"),
+    "C02": ("DESIGN.md §4 C02",
+            "Decides the structural facts that make plan choice answer-neutral: the memo key writes every field of every plan / "
+            "expression node and modifier tuple it takes apart (taint from each field to a formatting sink; derived Debug for "
+            "whole values; explicit arm per variant), both scan strategies run one executor, the set-at-a-time joiners never "
+            "build rows except through merge_rows (which checks shared variables), and cost estimates never flow into plan "
+            "content. The unguarded hash/nested-loop candidates for input-sensitive right operands are two confirmed known "
+            "findings. Equality of the three join algorithms' multisets for all inputs is not decided.",
+            "MIR field-to-sink taint (key completeness), sibling arm comparison, forbidden-effect scan, cost taint"),
 }
 
 NA = {
